@@ -18,12 +18,13 @@ type Profile struct {
 	FibChurn    int // chance (in 100) of a FIB/strategy/face change between packets
 	DefaultToNL int // chance (in 100) of a default route towards a non-local face
 	LinkSvc     int // chance (in 100) that a history enters through the real link service ("ls")
+	RealTCP     int // chance (in 100) that a face takes its scope from a really constructed TCP transport
 }
 
 var (
-	P01 = Profile{ID: "C01", Localhost: 8, DataRatio: 45, NextHop: 3, Hints: 10, FibChurn: 6, DefaultToNL: 30, LinkSvc: 35}
-	P02 = Profile{ID: "C02", Localhost: 6, DataRatio: 25, NextHop: 10, Hints: 20, FibChurn: 15, DefaultToNL: 30, LinkSvc: 35}
-	P09 = Profile{ID: "C09", Localhost: 45, DataRatio: 40, NextHop: 12, Hints: 8, FibChurn: 8, DefaultToNL: 70, LinkSvc: 50}
+	P01 = Profile{ID: "C01", Localhost: 8, DataRatio: 45, NextHop: 3, Hints: 10, FibChurn: 6, DefaultToNL: 30, LinkSvc: 35, RealTCP: 10}
+	P02 = Profile{ID: "C02", Localhost: 6, DataRatio: 25, NextHop: 10, Hints: 20, FibChurn: 15, DefaultToNL: 30, LinkSvc: 35, RealTCP: 10}
+	P09 = Profile{ID: "C09", Localhost: 45, DataRatio: 40, NextHop: 12, Hints: 8, FibChurn: 8, DefaultToNL: 70, LinkSvc: 50, RealTCP: 35}
 )
 
 func comp(s string) enc.Component {
@@ -54,6 +55,21 @@ type pendI struct {
 }
 
 var alphabet = []string{"a", "b", "c"}
+
+type addrT struct {
+	kind, addr string
+	local      bool
+}
+
+var tcpAddrs = []addrT{
+	{"tcp4", "127.0.0.1", true}, {"tcp4", "127.8.9.10", true}, {"tcp6", "::1", true},
+	{"tcp4", "192.0.2.2", false}, {"tcp4", "10.0.0.1", false}, {"tcp4", "128.0.0.1", false}, {"tcp4", "1.127.0.1", false},
+	{"tcp6", "2001:db8::1", false}, {"tcp6", "fe80::1", false}, {"tcp4", "192.0.2.2", false}, {"tcp6", "2001:db8::1", false},
+}
+
+var scopeProbes = append(append([]addrT{}, tcpAddrs...),
+	addrT{"tcpa", "127.0.0.1", true}, addrT{"udp4", "127.0.0.1", true}, addrT{"udp6", "::1", true},
+	addrT{"unix", "/run/nfd/nfd.sock", true}, addrT{"unix", "/tmp/x.sock", true})
 
 func (s *genSt) name() enc.Name {
 	r := s.r
@@ -305,9 +321,36 @@ func Gen(g *common.Gen, p Profile) {
 				nonlocal = append(nonlocal, id)
 			}
 			lt := common.Pick(r, []string{"p2p", "p2p", "p2p", "p2p", "multi", "adhoc"})
+			if k > 0 && r.Intn(100) < p.RealTCP {
+				// scope decided by the real unicast TCP transport for this remote address
+				a := common.Pick(r, tcpAddrs)
+				delete(s.local, id)
+				if a.local {
+					if sc == "N" {
+						nonlocal = nonlocal[:len(nonlocal)-1]
+					}
+					s.local[id] = true
+					sc = "L"
+				} else {
+					if sc == "L" {
+						nonlocal = append(nonlocal, id)
+					}
+					sc = "N"
+				}
+				g.Op("face %d %s:%s p2p", id, a.kind, a.addr)
+				g.Stat("face-real-tcp-" + sc)
+				s.faces = append(s.faces, id)
+				continue
+			}
 			g.Op("face %d %s %s", id, sc, lt)
 			g.Stat("face-" + sc + "-" + lt)
 			s.faces = append(s.faces, id)
+		}
+		// scope classification by the real transport constructors
+		for k := r.Range(0, 2); k > 0; k-- {
+			a := common.Pick(r, scopeProbes)
+			g.Op("scope %s %s", a.kind, a.addr)
+			g.Stat("scope-" + a.kind)
 		}
 		// initial FIB
 		if len(nonlocal) > 0 && r.Intn(100) < p.DefaultToNL {
